@@ -39,6 +39,9 @@ EXPLANATION = (
     "R7 the conversion depends on self.step_size and the caller's flag: a step count may be remembered across calls only under a "
     "key that contains them (class/module-level containers outlive the network and need the step size in the key; shared lint "
     "persistent_memo_key on the conversion functions only).  "
+    "R8 where entries of the buffered vector are identified by an integer pair code a*stride+b (to let equal (delay, source element) "
+    "pairs share a slot), the stride exceeds every b: max(b)+c with c >= 1 or the declared extent of the indexed variable; a count of "
+    "(distinct) entries of b is a violation.  "
     "NOT decided: zero pre-history values, equality with the recurrence, what the backends do with index/index_2d/index_axis (C02), the "
     "DDE `past(...)` branch (C10), the Julia/Matlab spelling of roll with an axis argument (circshift; not executable here)."
 )
@@ -237,8 +240,8 @@ def _resolve_registered(ctx, ring, tpl: str, vdefs) -> List[dict]:
     if len(ds) != 1 or "value" not in ds[0].fields:
         raise AnalysisError(f"{f.qual} {ring.label}: the read index names `{tpl}`, which is not registered exactly once with a value")
     v = ds[0].fields["value"]
-    if isinstance(v, ast.Name) and U.is_param(ctx, f, v):
-        return [{"kind": "list", "param": v.id, "via": tpl}]
+    if isinstance(v, ast.Name) and U.selection_of_param(ctx, f, v) is not None:
+        return [{"kind": "list", "param": U.selection_of_param(ctx, f, v), "via": tpl}]
     if isinstance(v, ast.Name):
         return [{"kind": "local", "name": v.id, "via": tpl}]
     raise AnalysisError(f"{f.qual} {ring.label}: value of `{tpl}` has an unrecognised form: {ast.unparse(v)}")
@@ -263,9 +266,9 @@ def _resolve_delay_expr(ctx, ring, e: ast.AST, vdefs, guard) -> List[dict]:
         return _resolve_delay_expr(ctx, ring, e.body, vdefs, (e.test, True)) + _resolve_delay_expr(ctx, ring, e.orelse, vdefs, (e.test, False))
     if isinstance(e, ast.Call) and call_name(e) in ("str", "int") and len(e.args) == 1:
         return _resolve_delay_expr(ctx, ring, e.args[0], vdefs, guard)
-    if isinstance(e, ast.Subscript) and isinstance(e.value, ast.Name) and U.is_param(ctx, f, e.value) \
+    if isinstance(e, ast.Subscript) and isinstance(e.value, ast.Name) and U.selection_of_param(ctx, f, e.value) is not None \
             and isinstance(e.slice, ast.Constant) and e.slice.value == 0:
-        p = e.value.id
+        p = U.selection_of_param(ctx, f, e.value)
         # reading only the first delay is right only when there is exactly one
         ok_guard = False
         if guard is not None:
@@ -290,8 +293,8 @@ def _len_is_one(ctx, f, test, p: str):
         test, neg = test.operand, not neg
 
     def is_len(x, depth=0):
-        if isinstance(x, ast.Call) and call_name(x) == "len" and len(x.args) == 1 and isinstance(x.args[0], ast.Name) and x.args[0].id == p \
-                and U.is_param(ctx, f, x.args[0]):
+        if isinstance(x, ast.Call) and call_name(x) == "len" and len(x.args) == 1 and isinstance(x.args[0], ast.Name) \
+                and U.selection_of_param(ctx, f, x.args[0]) == p:
             return True
         if isinstance(x, ast.Name) and depth < 3:
             v = U.single_value(ctx, f, x)
@@ -486,9 +489,14 @@ def r1_ring_protocol(ctx, rid):
             rows_ok = False
             rd_ = [v for v in vdefs if v.name == rt and U.compatible(ctx, f, U.branch_chain(v.stmt), r.chain)]
             if len(rd_) == 1 and isinstance(rd_[0].fields.get("value"), ast.Name):
-                roots = U.value_roots(ctx, f, rd_[0].fields["value"])
-                df["row_index_roots"] = sorted(roots["params"])
-                rows_ok = "nodes" in roots["params"] and not (roots["params"] & params)
+                # whose elements are the row indices?  (a selection `source_idx[keep]` still holds source indices, whatever `keep` was
+                # computed from)
+                eps = U.element_params(ctx, f, rd_[0].fields["value"])
+                if eps is None:
+                    raise AnalysisError(f"{rid}: {where}: cannot trace the elements of the row index `{rt}` "
+                                        f"(`{ast.unparse(rd_[0].fields['value'])}`: unrecognised form)")
+                df["row_index_elements_from"] = sorted(eps)
+                rows_ok = eps == {"nodes"}
             if not rows_ok:
                 problems.append(f"the row index `{rt}` of the read does not hold the edges' source indices (parameter `nodes`)")
         if not outs or not edge_srcs:
@@ -1141,13 +1149,16 @@ def _check_repoint(ctx, rid, f):
         if isinstance(n, ast.Assign) and len(n.targets) == 1 and isinstance(n.targets[0], ast.Subscript) \
                 and const_str(n.targets[0].slice) == "source_idx":
             stores.append(n)
-    if len(stores) != 1:
-        raise AnalysisError(f"{rid}: {f.qual}: expected one store to edge['source_idx'], found {len(stores)}")
+    if not stores:
+        raise AnalysisError(f"{rid}: {f.qual}: no store to edge['source_idx'] found")
+    loops_ = {id(U.loop_of(st)) for st in stores}
+    if len(loops_) != 1:
+        raise AnalysisError(f"{rid}: {f.qual}: the {len(stores)} stores to edge['source_idx'] are not in one loop (unrecognised form)")
     store = stores[0]
     loop = U.loop_of(store)
     ctx.require(loop is not None, f"{rid}: {f.qual}: the store to edge['source_idx'] is not inside a loop")
     it, has_idx = U.unwrap_enumerate(loop.iter)
-    facts = {"loop": norm(loop), "store": norm(store)}
+    facts = {"loop": norm(loop), "store": [norm(st) for st in stores]}
     problems = []
     # the loop walks the `edges` parameter in order
     order = U.iterates_in_order(ctx, f, loop.iter, "edges")
@@ -1155,15 +1166,26 @@ def _check_repoint(ctx, rid, f):
         raise AnalysisError(f"{rid}: {f.qual}: cannot tell whether `{norm(loop)}` walks the `edges` parameter front to back (unrecognised form)")
     if not order:
         problems.append(f"the loop iterates `{ast.unparse(it)}`, not the `edges` parameter in its own order")
-    # the range
-    v = store.value
-    rng = None
-    for c in ast.walk(v):
-        if isinstance(c, ast.Call) and call_name(c) == "range" and len(c.args) == 2:
-            rng = c
-    if rng is None:
-        raise AnalysisError(f"{rid}: {f.qual}: `{norm(store)}` does not assign a range(lo, hi)")
 
+    # what each store hands to the edge: the positions lo..hi-1 themselves (`range(lo, hi)`), or - when entries share slots - the
+    # slots of these positions looked up in a per-entry slot map (`M[lo:hi]`, possibly converted element by element)
+    def bounds(st):
+        for c in ast.walk(st.value):
+            if isinstance(c, ast.Call) and call_name(c) == "range" and len(c.args) == 2:
+                return c.args[0], c.args[1], None
+        for c in ast.walk(st.value):
+            if isinstance(c, ast.Subscript) and isinstance(c.slice, ast.Slice) and isinstance(c.value, ast.Name) \
+                    and c.slice.lower is not None and c.slice.upper is not None and c.slice.step is None:
+                if U.is_param(ctx, f, c.value):
+                    break
+                return c.slice.lower, c.slice.upper, c.value.id
+        raise AnalysisError(f"{rid}: {f.qual}: `{norm(st)}` assigns neither a range(lo, hi) nor a slice [lo:hi] of a slot map")
+
+    bnds = [bounds(st) for st in stores]
+    lo, hi, _ = bnds[0]
+    maps = sorted({m for _, _, m in bnds if m})
+    if maps:
+        facts["slot_map"] = maps
     def inline(e):
         def leaf(n):
             if isinstance(n, ast.Name):
@@ -1174,9 +1196,11 @@ def _check_repoint(ctx, rid, f):
                 return sp.Function("len")(sp.Symbol(ast.unparse(n.args[0]).replace(" ", "")))
             return None
         return symx.to_sympy(e, leaf=leaf)
-    lo, hi = rng.args
     if not isinstance(lo, ast.Name):
         raise AnalysisError(f"{rid}: {f.qual}: lower bound `{ast.unparse(lo)}` of the slot range is not a cursor variable")
+    for lo2, hi2, _ in bnds[1:]:
+        if not (isinstance(lo2, ast.Name) and lo2.id == lo.id and sp.simplify(inline(hi2) - inline(hi)) == 0):
+            raise AnalysisError(f"{rid}: {f.qual}: the stores to edge['source_idx'] do not use one common range of positions (unrecognised form)")
     width = sp.simplify(inline(hi) - inline(lo))
     facts["range_width"] = str(width)
     # expected: len(nodes[<index of this edge>])
@@ -1212,7 +1236,14 @@ def _check_repoint(ctx, rid, f):
             adv_ok = isinstance(a.op, ast.Add) and sp.simplify(inline(a.value) - width) == 0
         elif av is not None:
             adv_ok = sp.simplify(inline(av) - inline(hi)) == 0
-        adv_ok = adv_ok and parent(a) is parent(store) and a.lineno > store.lineno
+        # executed whenever a store is: in the store's own block behind it, or unconditionally in the loop body behind the statement
+        # that contains the store
+        def top(st_):
+            while parent(st_) is not loop:
+                st_ = parent(st_)
+            return st_
+        adv_ok = adv_ok and all((parent(a) is parent(st_) and a.lineno > st_.lineno) or (parent(a) is loop and a.lineno > top(st_).lineno)
+                                for st_ in stores)
     facts["cursor"] = {"name": cur, "init": [norm(d) for d in inits], "advance": [norm(d) for d in advs]}
     if not init_ok:
         problems.append(f"the slot cursor `{cur}` does not start at 0")
@@ -1223,7 +1254,8 @@ def _check_repoint(ctx, rid, f):
         ctx.violation(rid, f, loop, "; ".join(problems) + ": edges would read slots that belong to other edges' delays", facts,
                       label="slots handed back to the edges")
     else:
-        ctx.ok(rid, f, loop, "edge i receives the slots [sum_{j<i} len(nodes[j]), + len(nodes[i])) in the order of `edges`", facts,
+        ctx.ok(rid, f, loop, "edge i receives the slots [sum_{j<i} len(nodes[j]), + len(nodes[i])) in the order of `edges`" +
+               (f" (looked up in the per-entry slot map `{maps[0]}` where entries share slots)" if maps else ""), facts,
                label="slots handed back to the edges")
     # flatten order
     _check_flatten(ctx, rid, f)
@@ -1303,6 +1335,137 @@ def r_perm_identity(ctx, rid):
     permutation_test_as_identity(ctx, rid)
 
 
+PAIR_CODE_CONSUMERS = {"unique", "set", "frozenset", "isin", "in1d", "searchsorted", "argsort", "Counter", "bincount", "lexsort", "fromkeys"}
+_STRIP = {"asarray", "array", "list", "tuple", "int", "unique", "set", "max", "amax", "nanmax", "len", "flatten", "ravel", "squeeze"}
+
+
+def _innermost_name(e) -> Optional[ast.Name]:
+    """x of max(x), len(unique(x)), int(np.max(x)), x.max(), np.unique(x).size ..."""
+    for _ in range(8):
+        if isinstance(e, ast.Name):
+            return e
+        if isinstance(e, ast.Call):
+            if e.args and call_name(e) in _STRIP:
+                e = e.args[0]
+            elif isinstance(e.func, ast.Attribute) and not e.args:
+                e = e.func.value
+            else:
+                return None
+        elif isinstance(e, ast.Attribute) and e.attr in ("size", "shape"):
+            e = e.value
+        elif isinstance(e, ast.Subscript) and isinstance(e.slice, ast.Constant):
+            e = e.value
+        else:
+            return None
+    return None
+
+
+def r8_pair_code_stride(ctx, rid):
+    """Where the buffer construction identifies (a, b) pairs - e.g. (delay steps, source element) of the entries of a buffered
+    vector that may share a slot - by one integer `a * stride + b` (fed to unique/set/a dict), two different pairs must not get the
+    same code: the stride has to exceed every b.  Decided: the stride is `max(b) + c` with c >= 1 (ok), or the extent of the
+    indexed variable read from its declared shape (ok), or a count of (distinct) entries of b itself (violation: with gaps in
+    the values of b the count is <= max(b)); anything else is not decided (AnalysisError).  Tuples / unique(axis=0) need no stride."""
+    funcs, seen = [], set()
+    for name in ("_add_edge_buffer", "_add_matrix_delay", "_collect_delays_from_edges"):
+        for g in U.helper_scopes(ctx, U.method(ctx, name)):
+            if g.qual not in seen:
+                seen.add(g.qual)
+                funcs.append(g)
+    n_sites = 0
+    for g in funcs:
+        rd = ctx.rd(g)
+
+        def resolved(x, depth=0):
+            if isinstance(x, ast.Name) and depth < 4:
+                v = U.single_value(ctx, g, x)
+                if v is not None and not isinstance(v, ast.Name):
+                    return resolved(v, depth + 1)
+                if isinstance(v, ast.Name):
+                    return resolved(v, depth + 1)
+            return x
+
+        def consumed(node) -> bool:
+            """the value of `node` (directly or through the local it is bound to) is handed to something that tells values apart"""
+            p_ = parent(node)
+            if isinstance(p_, ast.Call) and call_name(p_) in PAIR_CODE_CONSUMERS and node in p_.args:
+                return True
+            if isinstance(p_, ast.Subscript) and p_.slice is node:
+                return True
+            if isinstance(p_, ast.Compare) and any(isinstance(o, (ast.In, ast.NotIn)) for o in p_.ops) and p_.left is node:
+                return True
+            if isinstance(p_, ast.Assign) and p_.value is node and len(p_.targets) == 1 and isinstance(p_.targets[0], ast.Name):
+                nm = p_.targets[0].id
+                return any(consumed(x) for x in walk_shallow(g.node) if isinstance(x, ast.Name) and x.id == nm and isinstance(x.ctx, ast.Load)
+                           and p_ in rd.defs_reaching(x))
+            return False
+
+        for n in walk_shallow(g.node):
+            if not (isinstance(n, ast.BinOp) and isinstance(n.op, ast.Add)):
+                continue
+            for mul, b in ((n.left, n.right), (n.right, n.left)):
+                if not (isinstance(mul, ast.BinOp) and isinstance(mul.op, ast.Mult)) or not consumed(n):
+                    continue
+                n_sites += 1
+                st = U.stmt_of_expr(n)
+                b_name = _innermost_name(b)
+                label = f"pair code stride: {norm(st, 60)}"
+                verdicts = []
+                for cand in (mul.left, mul.right):
+                    r = resolved(cand)
+                    facts = {"code": ast.unparse(n), "stride": ast.unparse(cand), "stride_value": ast.unparse(r), "low_digit": ast.unparse(b)}
+                    inner = _innermost_name(r)
+                    same_b = inner is not None and b_name is not None and inner.id == b_name.id
+                    calls = [call_name(c) for c in ast.walk(r) if isinstance(c, ast.Call)]
+                    attrs = [a.attr for a in ast.walk(r) if isinstance(a, ast.Attribute)]
+                    # max(b) + c
+                    if isinstance(r, ast.BinOp) and isinstance(r.op, ast.Add):
+                        for m_, c_ in ((r.left, r.right), (r.right, r.left)):
+                            if isinstance(c_, ast.Constant) and isinstance(c_.value, int) and any(
+                                    isinstance(x, ast.Call) and call_name(x) in ("max", "amax", "nanmax") for x in ast.walk(m_)):
+                                im = _innermost_name(m_)
+                                if im is not None and b_name is not None and im.id == b_name.id:
+                                    verdicts.append(("ok" if c_.value >= 1 else "low", facts, f"max({b_name.id}) + {c_.value}"))
+                    if verdicts:
+                        continue
+                    core = r.args[0] if isinstance(r, ast.Call) and call_name(r) == "int" and len(r.args) == 1 else r
+                    is_max = (isinstance(core, ast.Call) and call_name(core) in ("max", "amax", "nanmax"))
+                    is_count = (isinstance(core, ast.Call) and call_name(core) == "len") or (isinstance(core, ast.Attribute) and core.attr == "size")
+                    if is_max and same_b:
+                        verdicts.append(("low", facts, f"max({b_name.id}) itself (the pair (a, max) collides with (a + 1, 0))"))
+                    elif is_count:
+                        if same_b:
+                            distinct = any(c in ("unique", "set", "frozenset") for c in calls)
+                            verdicts.append(("count", facts, ("the number of distinct values" if distinct else "the number of entries") + f" of `{b_name.id}`"))
+                        else:
+                            verdicts.append(("unknown", facts, f"`{ast.unparse(r)}`"))
+                    elif any(k == "shape" for k in U.value_roots(ctx, g, r)["keys"]) or "shape" in attrs:
+                        verdicts.append(("extent", facts, f"an extent read from a declared shape (`{ast.unparse(r)}`)"))
+                if not verdicts:
+                    raise AnalysisError(f"{rid}: {g.qual}: cannot tell the stride of the pair code `{ast.unparse(n)}` / prove that it exceeds every "
+                                        f"`{ast.unparse(b)}` (unrecognised form)")
+                kind, facts, what = verdicts[0]
+                if kind == "ok":
+                    ctx.ok(rid, g, st, f"the stride of the pair code is {what}: it exceeds every low digit, different pairs get different codes", facts, label=label)
+                elif kind == "extent":
+                    ctx.ok(rid, g, st, f"the stride of the pair code is {what} of the variable the low digit indexes", facts, label=label, nontrivial=False)
+                elif kind in ("count", "low"):
+                    high = mul.left if ast.unparse(mul.right) == facts["stride"] else mul.right
+                    ctx.violation(rid, g, st, f"`{ast.unparse(n)}` identifies ({ast.unparse(high)}, "
+                                              f"{ast.unparse(b)}) pairs by one integer, but its stride `{facts['stride']}` is {what}, not an upper bound of "
+                                              f"`{ast.unparse(b)}`: when the values of `{ast.unparse(b)}` have gaps (only some members of the source project) the stride "
+                                              f"is <= max({ast.unparse(b)}), two different pairs get the same code, are taken for one, and an edge is pointed at "
+                                              f"the slot of another source element / delay", facts, label=label)
+                else:
+                    raise AnalysisError(f"{rid}: {g.qual}: the stride {what} of the pair code `{ast.unparse(n)}` is a count of something else than its low "
+                                        f"digit; cannot prove that it exceeds every `{ast.unparse(b)}`")
+                break
+    if n_sites == 0:
+        f0 = U.method(ctx, "_add_edge_buffer")
+        ctx.ok(rid, f0, f0.node, f"no integer pair code `a * stride + b` is used to identify entries in the buffer construction "
+                                 f"({len(funcs)} functions scanned)", label="pair code stride: none used", nontrivial=False)
+
+
 def r7_conversion_memo_key(ctx, rid):
     """The time -> steps conversion depends on the step size of the network being compiled (and on the caller's discretize
     flag).  A result may therefore be remembered across calls only under a key that contains everything it was computed
@@ -1351,5 +1514,6 @@ RULES = [
     ("C09-R4", r4_default_delay_matches_write_slot, 2),
     ("C09-R5", r5_slot_order, 4),          # accumulation, >= 1 call site, re-pointing loop, flattening (6 today: 3 call sites)
     ("C09-R6", r_perm_identity, 1),
+    ("C09-R8", r8_pair_code_stride, 1),
     ("C09-R7", r7_conversion_memo_key, 2),   # one obligation per conversion function (_preprocess_delay, _process_delays)
 ]
